@@ -201,7 +201,6 @@ def run_case(spec, ctx):
     out["nontrivial"] = splits >= 1 and compared >= 4
     if out["violations"]:
         out["status"] = "violated"
-        out["violations"] = out["violations"][:10]
     for v in out["violations"]:
         F.classify(ID, v, text=text)
     out["model_text"] = text if out["violations"] and len(text) < 6000 else None
